@@ -18,13 +18,17 @@ type SearchResult struct {
 
 // SearchOptions represents search options for cache key generation
 type SearchOptions struct {
-	Limit          int                `json:"limit"`
-	ContextBoosts  map[string]float64 `json:"context_boosts,omitempty"`
-	PipelineOnly   bool               `json:"pipeline_only,omitempty"`
-	PipelineBoost  float64            `json:"pipeline_boost,omitempty"`
-	UseFuzzy       bool               `json:"use_fuzzy,omitempty"`
-	FuzzyThreshold int                `json:"fuzzy_threshold,omitempty"`
-	UseNLP         bool               `json:"use_nlp,omitempty"`
+	Limit           int                `json:"limit"`
+	ContextBoosts   map[string]float64 `json:"context_boosts,omitempty"`
+	PipelineOnly    bool               `json:"pipeline_only,omitempty"`
+	PipelineBoost   float64            `json:"pipeline_boost,omitempty"`
+	UseFuzzy        bool               `json:"use_fuzzy,omitempty"`
+	FuzzyThreshold  int                `json:"fuzzy_threshold,omitempty"`
+	UseNLP          bool               `json:"use_nlp,omitempty"`
+	TopTermsCap     int                `json:"top_terms_cap,omitempty"`
+	AllPlatforms    bool               `json:"all_platforms,omitempty"`
+	Platforms       []string           `json:"platforms,omitempty"`
+	NoCrossPlatform bool               `json:"no_cross_platform,omitempty"`
 }
 
 // SearchCache provides caching for search results
